@@ -24,6 +24,11 @@ def projects():
     ps.append(('{\n  "a": 1\n}', {'@Cat': '{"x": @missingOne}', '@cat': '{"y": @missingTwo}', '@CAT': '{"z": @missingThree}'}, {}))
     ps.append(('{\n  "a": 1\n}', {'@a': '{"x": @m1}', '@a1': '{"y": @m2}', '@a_1': '{"z": @m3}', '@a-1': '{"z": @m4}'}, {}))
     ps.append(('{\n  "a": 1\n}', {'@Ab': '{ // {allOf: "@n1"}\n}', '@aB': '{ // {allOf: "@n2"}\n}', '@ab': '{ // {allOf: "@n3"}\n}'}, {}))
+    # several broken unnamed types (alternatives of `or` rule-sets, type choices): they are registered under heap addresses
+    ps.append(('{\n  "a": 1 // {or: [{type: "@m1", nullable: true}, {type: "@m2", nullable: true}]}\n}', {}, {}))
+    ps.append(('{\n  "k1": @t2,\n  "k2": {\n  }\n}',
+               {'@t2': '[\n  1, // {or: [{type: "integer", min: 0}, {type: "@t3", nullable: true}]}\n  {\n    "k3": @t5 | @t3,\n    "k4": "s"\n  },\n  @t3\n]'}, {}))
+    ps.append(('{\n  "a": @x1 | @x2,\n  "b": @y1 | @y2,\n  "c": 1 // {or: [{type: "@z1", nullable: true}, {type: "string", minLength: 1}]}\n}', {}, {}))
     ps.append(('@t', {'@t': '{"x": @t}'}, {}))
     ps.append(('{"a": 1,', {'@t': '{"x": '}, {}))
     return ps
